@@ -7,9 +7,16 @@ PROP_FILES = ["C16"]
 
 class CondSpec(SeqSpec):
     component = "cond"
-    imports = "From Juniper Require Import Common.Base Conc.GoLTS Conc.Cond."
-    preamble = "Local Open Scope nat_scope.\nDefinition chk (c : list (gpos * nat) * nat * list lab) : bool := let '(cfg, n, evs) := c in accepts_history cfg n evs."
-    checkers = {"M": "chk"}
+    imports = "From Juniper Require Import Common.Base Conc.GoLTS Conc.GoLTSProofs Conc.Cond."
+    # a history is reported as rejected only when the rejection is certified genuine: GoLTSProofs.reject_genuine
+    # (the closure reached its fixpoint within the fuel: convergedb) - otherwise the matcher's fuel was too small.
+    preamble = ("Local Open Scope nat_scope.\n"
+                "Definition conv (cfg : list (gpos * nat)) (n : nat) (evs : list lab) : bool :=\n"
+                "  convergedb st lab lab qstep vis lab_eqb st_eqb tau_labels (fun _ e => [e]) 64 (init cfg n) evs.\n"
+                "Definition chk (c : list (gpos * nat) * nat * list lab) : bool := let '(cfg, n, evs) := c in accepts_history cfg n evs || negb (conv cfg n evs).\n"
+                "Definition chk_conv (c : list (gpos * nat) * nat * list lab) : bool := let '(cfg, n, evs) := c in conv cfg n evs.")
+    checkers = {"M": "chk", "converged": "chk_conv"}
+    informational = {"converged"}
 
     def gen_one(self, rng, targeted):
         nw = rng.choice([1, 2, 2, 3, 4])
@@ -213,7 +220,7 @@ SPECS = {"cond": (CondSpec(), "harness", "runner")}
 
 
 def run(ctx):
-    proofs_ok = ctx.check_proofs(PROP_FILES, extra_targets=["theories/Conc/Cond.vo"])
+    proofs_ok = ctx.check_proofs(PROP_FILES, extra_targets=["theories/Conc/Cond.vo", "theories/Conc/GoLTSProofs.vo"])
     ok, out, exe = vlib.build_runner()
     if not ok:
         ctx.violation("harness-build", "the harness does not build against the current tree: " + out[-1500:], {"build_output": out[-4000:]}, failing_input=False)
